@@ -2,10 +2,15 @@
 //! compared segment by segment with the Coq model (bit-exact f32 operation sequence); every
 //! emitted segment / dot (any angle, curved paths too) is checked directly against the even-odd
 //! interior computed independently.
+//!
+//! Audit (`audit`, counters `audit_*`): arbitrary angles / tolerances / uv origins / offset sequences, regular and
+//! custom hatch and dot patterns, against a reference that uses none of lyon (f64 Bezier sampling, rotation,
+//! row crossings under even-odd, distance to the outline); curved paths additionally against the polygon that
+//! lyon_geom's flattening gives at the same tolerance (sharp).  See the comment above `type P2`.
 use crate::util::*;
 use lyon_algorithms::hatching::{Dot, DotBuilder, DotOptions, HatchBuilder, HatchSegment, Hatcher, HatchingOptions};
 use lyon_algorithms::hit_test::path_winding_number_at_position;
-use lyon_path::math::{point, Angle, Point};
+use lyon_path::math::{point, Angle, Point, Vector};
 use lyon_path::Path;
 use std::panic::AssertUnwindSafe;
 
@@ -71,6 +76,23 @@ fn gq(v: f32) -> String {
 
 fn inside_evenodd(path: &Path, p: Point, tol: f32) -> bool {
     path_winding_number_at_position(&p, path.iter(), tol) % 2 != 0
+}
+
+/// distance from `p` to the outline (every sub-path closed), on a 1e-3 flattening
+fn outline_distance(path: &Path, p: Point) -> f64 {
+    use lyon_path::iterator::PathIterator;
+    use lyon_path::PathEvent;
+    let q = [p.x as f64, p.y as f64];
+    let f = |a: Point| -> P2 { [a.x as f64, a.y as f64] };
+    let mut best = f64::INFINITY;
+    for e in path.iter().flattened(1e-3) {
+        match e {
+            PathEvent::Line { from, to } => best = best.min(a_dist_pt_seg(q, f(from), f(to))),
+            PathEvent::End { last, first, .. } => best = best.min(a_dist_pt_seg(q, f(last), f(first))),
+            _ => {}
+        }
+    }
+    best
 }
 
 pub fn main(args: &Args) -> std::io::Result<()> {
@@ -303,6 +325,11 @@ pub fn main(args: &Args) -> std::io::Result<()> {
                 None => st.fail(jobj(&[("what", jstr("hatch_path / dot_path panicked")), ("input", jstr(&format!("{:?} angle {}", path, angle)))])),
                 Some((segs, dots)) => {
                     let far = |p: Point| -> bool {
+                        // farther than the tolerance from the outline (a sliver thinner than the probes below would
+                        // otherwise pass for "far": a dot on the edge of a 0.013 wide sliver was reported)
+                        if outline_distance(&path, p) <= tol as f64 + 1e-3 {
+                            return false;
+                        }
                         // both probes at +-5 tol along the outline normal are unreliable: use winding stability
                         let w0 = path_winding_number_at_position(&p, path.iter(), tol / 10.0);
                         [(0.05, 0.0), (-0.05, 0.0), (0.0, 0.05), (0.0, -0.05)].iter().all(|(dx, dy)| {
@@ -353,6 +380,1690 @@ pub fn main(args: &Args) -> std::io::Result<()> {
             st.fail(jobj(&[("what", jstr("empty path: panic or output")), ("input", jstr(&format!("{:?} -> {:?}", subs, r)))]));
         }
     }
+    audit(args, &mut st);
     w.finish()?;
     st.write(&args.out.join("c20_stats.json"))
+}
+
+// ======================================================================================
+// Audit with an independent reference for arbitrary angles.
+//
+// Conventions derived from hatching.rs and confirmed by `a_convention_probe`:
+// * lyon works in the frame p' = R(+angle) p, R(t) = [[cos t, -sin t], [sin t, cos t]] (euclid's
+//   Rotation2D).  Rows are the lines y' = const.  In world space a row runs along R(-angle)(1, 0) =
+//   (cos a, -sin a) (the hatch lines make the angle -a with +x in the y-up mathematical sense, i.e. +a
+//   on a y-down screen) and successive rows advance along R(-angle)(0, 1) = (sin a, cos a).
+// * (u, v) = R(+angle)(position) - R(+angle)(uv_origin): `uv_origin` only shifts the reported u / v.
+// * Row k is the line y' = m + offset(0) + ... + offset(k), m = the smallest y' of the (flattened) outline;
+//   `row` counts every line swept (also lines that emit nothing); next_offset(k) is asked before row k.
+//   The rows are NOT anchored to uv_origin.
+// * Every sub-path is closed implicitly (`end(close)` ignores `close`); half-open rule [from.y', to.y').
+//
+// The reference below uses none of lyon: Bezier evaluation, rotation, crossings and distances are all
+// computed here in f64.
+type P2 = [f64; 2];
+
+#[derive(Clone, Debug)]
+enum Sg {
+    L((f32, f32)),
+    Q((f32, f32), (f32, f32)),
+    C((f32, f32), (f32, f32), (f32, f32)),
+}
+
+#[derive(Clone, Debug)]
+struct Sub {
+    s: (f32, f32),
+    g: Vec<Sg>,
+    close: bool,
+}
+
+fn a_build(subs: &[Sub]) -> Path {
+    let pt = |p: (f32, f32)| point(p.0, p.1);
+    let mut b = Path::builder();
+    for sb in subs {
+        b.begin(pt(sb.s));
+        for g in &sb.g {
+            match g {
+                Sg::L(p) => {
+                    b.line_to(pt(*p));
+                }
+                Sg::Q(c, p) => {
+                    b.quadratic_bezier_to(pt(*c), pt(*p));
+                }
+                Sg::C(c1, c2, p) => {
+                    b.cubic_bezier_to(pt(*c1), pt(*c2), pt(*p));
+                }
+            }
+        }
+        b.end(sb.close);
+    }
+    b.build()
+}
+
+fn a_curved(subs: &[Sub]) -> bool {
+    subs.iter().any(|s| s.g.iter().any(|g| !matches!(g, Sg::L(_))))
+}
+
+/// Fine polylines (world space), one implicitly closed ring per sub-path; chord error <= 5e-5.
+fn a_fine(subs: &[Sub]) -> Vec<Vec<P2>> {
+    let f = |p: (f32, f32)| -> P2 { [p.0 as f64, p.1 as f64] };
+    let hyp = |a: f64, b: f64| (a * a + b * b).sqrt();
+    let steps = |m: f64| -> usize { ((m / (8.0 * 5e-5)).sqrt().ceil() as usize).max(8).min(4000) };
+    let mut rings = Vec::new();
+    for sb in subs {
+        let mut pts: Vec<P2> = vec![f(sb.s)];
+        let mut cur = f(sb.s);
+        for g in &sb.g {
+            match g {
+                Sg::L(p) => {
+                    cur = f(*p);
+                    pts.push(cur);
+                }
+                Sg::Q(c, p) => {
+                    let (c, p) = (f(*c), f(*p));
+                    let m = 2.0 * hyp(cur[0] - 2.0 * c[0] + p[0], cur[1] - 2.0 * c[1] + p[1]);
+                    let n = steps(m);
+                    for i in 1..=n {
+                        let t = i as f64 / n as f64;
+                        let mt = 1.0 - t;
+                        pts.push([mt * mt * cur[0] + 2.0 * mt * t * c[0] + t * t * p[0], mt * mt * cur[1] + 2.0 * mt * t * c[1] + t * t * p[1]]);
+                    }
+                    cur = p;
+                    *pts.last_mut().unwrap() = p;
+                }
+                Sg::C(c1, c2, p) => {
+                    let (c1, c2, p) = (f(*c1), f(*c2), f(*p));
+                    let m1 = hyp(cur[0] - 2.0 * c1[0] + c2[0], cur[1] - 2.0 * c1[1] + c2[1]);
+                    let m2 = hyp(c1[0] - 2.0 * c2[0] + p[0], c1[1] - 2.0 * c2[1] + p[1]);
+                    let n = steps(6.0 * m1.max(m2));
+                    for i in 1..=n {
+                        let t = i as f64 / n as f64;
+                        let mt = 1.0 - t;
+                        let (b0, b1, b2, b3) = (mt * mt * mt, 3.0 * mt * mt * t, 3.0 * mt * t * t, t * t * t);
+                        pts.push([b0 * cur[0] + b1 * c1[0] + b2 * c2[0] + b3 * p[0], b0 * cur[1] + b1 * c1[1] + b2 * c2[1] + b3 * p[1]]);
+                    }
+                    cur = p;
+                    *pts.last_mut().unwrap() = p;
+                }
+            }
+        }
+        pts.dedup();
+        while pts.len() > 1 && pts.last() == pts.first() {
+            pts.pop();
+        }
+        rings.push(pts);
+    }
+    rings
+}
+
+/// The polygon lyon hatches: the same sub-paths flattened by lyon_geom's public `for_each_flattened` at the
+/// tolerance of the case (another API route to the points `hatch_path` works on; the sub-paths closed).
+fn a_lyon_flat(subs: &[Sub], tol: f32) -> Vec<Vec<P2>> {
+    use lyon_geom::{CubicBezierSegment, LineSegment as GLine, QuadraticBezierSegment};
+    let pt = |p: (f32, f32)| point(p.0, p.1);
+    let mut rings = Vec::new();
+    for sb in subs {
+        let mut pts: Vec<P2> = vec![[sb.s.0 as f64, sb.s.1 as f64]];
+        let mut cur = pt(sb.s);
+        for g in &sb.g {
+            match g {
+                Sg::L(p) => {
+                    cur = pt(*p);
+                    pts.push([cur.x as f64, cur.y as f64]);
+                }
+                Sg::Q(c, p) => {
+                    QuadraticBezierSegment { from: cur, ctrl: pt(*c), to: pt(*p) }.for_each_flattened(tol, &mut |l: &GLine<f32>| pts.push([l.to.x as f64, l.to.y as f64]));
+                    cur = pt(*p);
+                }
+                Sg::C(c1, c2, p) => {
+                    CubicBezierSegment { from: cur, ctrl1: pt(*c1), ctrl2: pt(*c2), to: pt(*p) }.for_each_flattened(tol, &mut |l: &GLine<f32>| pts.push([l.to.x as f64, l.to.y as f64]));
+                    cur = pt(*p);
+                }
+            }
+        }
+        pts.dedup();
+        while pts.len() > 1 && pts.last() == pts.first() {
+            pts.pop();
+        }
+        rings.push(pts);
+    }
+    rings
+}
+
+fn a_merge(mut v: Vec<(f64, f64)>) -> Vec<(f64, f64)> {
+    v.sort_by(|a, b| a.0.partial_cmp(&b.0).unwrap());
+    let mut out: Vec<(f64, f64)> = Vec::new();
+    for (a, b) in v {
+        match out.last_mut() {
+            Some(l) if a <= l.1 => {
+                if b > l.1 {
+                    l.1 = b
+                }
+            }
+            _ => out.push((a, b)),
+        }
+    }
+    out
+}
+
+/// {x : dist((x, y), segment pq) <= d}
+fn a_capsule_row(p: P2, q: P2, y: f64, d: f64) -> Option<(f64, f64)> {
+    let (mut lo, mut hi) = (f64::INFINITY, f64::NEG_INFINITY);
+    for c in [p, q] {
+        let dy = y - c[1];
+        if dy.abs() <= d {
+            let w = (d * d - dy * dy).sqrt();
+            lo = lo.min(c[0] - w);
+            hi = hi.max(c[0] + w);
+        }
+    }
+    let (dx, dy) = (q[0] - p[0], q[1] - p[1]);
+    let l = (dx * dx + dy * dy).sqrt();
+    if l > 0.0 {
+        let (mut a, mut b) = (f64::NEG_INFINITY, f64::INFINITY);
+        let mut clip = |k: f64, c: f64, lo: f64, hi: f64| {
+            if k.abs() < 1e-300 {
+                if c < lo || c > hi {
+                    a = f64::INFINITY;
+                    b = f64::NEG_INFINITY;
+                }
+            } else {
+                let (x0, x1) = ((lo - c) / k, (hi - c) / k);
+                a = a.max(x0.min(x1));
+                b = b.min(x0.max(x1));
+            }
+        };
+        // t(x) = ((x - p0) dx + (y - p1) dy) / l in [0, l];   n(x) = (-(x - p0) dy + (y - p1) dx) / l in [-d, d]
+        clip(dx / l, ((y - p[1]) * dy - p[0] * dx) / l, 0.0, l);
+        clip(-dy / l, ((y - p[1]) * dx + p[0] * dy) / l, -d, d);
+        if a <= b {
+            lo = lo.min(a);
+            hi = hi.max(b);
+        }
+    }
+    if lo <= hi {
+        Some((lo, hi))
+    } else {
+        None
+    }
+}
+
+/// even-odd interior intervals of the line y' = y (half-open rule) and the set of its points within d of the outline
+fn a_row_ref(rr: &[Vec<P2>], y: f64, d: f64) -> (Vec<(f64, f64)>, Vec<(f64, f64)>) {
+    let mut xs: Vec<f64> = Vec::new();
+    let mut u: Vec<(f64, f64)> = Vec::new();
+    for ring in rr {
+        let n = ring.len();
+        if n < 2 {
+            continue;
+        }
+        for i in 0..n {
+            let (p, q) = (ring[i], ring[(i + 1) % n]);
+            let (lo, hi) = (p[1].min(q[1]), p[1].max(q[1]));
+            if y < lo - d || y > hi + d {
+                continue;
+            }
+            if (p[1] <= y) != (q[1] <= y) {
+                xs.push(p[0] + (y - p[1]) / (q[1] - p[1]) * (q[0] - p[0]));
+            }
+            if let Some(iv) = a_capsule_row(p, q, y, d) {
+                u.push(iv);
+            }
+        }
+    }
+    xs.sort_by(|a, b| a.partial_cmp(b).unwrap());
+    let r: Vec<(f64, f64)> = xs.chunks(2).filter(|c| c.len() == 2).map(|c| (c[0], c[1])).collect();
+    (r, a_merge(u))
+}
+
+/// pieces of E xor R: (from, to, piece is in E)
+fn a_xor(e: &[(f64, f64)], r: &[(f64, f64)]) -> Vec<(f64, f64, bool)> {
+    let mut xs: Vec<f64> = e.iter().chain(r.iter()).flat_map(|(a, b)| [*a, *b]).collect();
+    xs.sort_by(|a, b| a.partial_cmp(b).unwrap());
+    xs.dedup();
+    let mut out: Vec<(f64, f64, bool)> = Vec::new();
+    for w in xs.windows(2) {
+        let m = 0.5 * (w[0] + w[1]);
+        let ine = e.iter().any(|(a, b)| *a < m && m < *b);
+        let inr = r.iter().any(|(a, b)| *a < m && m < *b);
+        if ine != inr {
+            match out.last_mut() {
+                Some(l) if l.1 == w[0] && l.2 == ine => l.1 = w[1],
+                _ => out.push((w[0], w[1], ine)),
+            }
+        }
+    }
+    out
+}
+
+fn a_within(u: &[(f64, f64)], l: f64, r: f64) -> bool {
+    u.iter().any(|(a, b)| *a <= l + 1e-9 && r <= *b + 1e-9)
+}
+
+/// [x0, x1] lies in one interior interval and no point of it is within d of the outline
+fn a_def_inside(r: &[(f64, f64)], u: &[(f64, f64)], x0: f64, x1: f64) -> bool {
+    r.iter().any(|(a, b)| *a <= x0 && x1 <= *b) && !u.iter().any(|(a, b)| *a <= x1 && x0 <= *b)
+}
+
+fn a_dist_pt_seg(p: P2, a: P2, b: P2) -> f64 {
+    let (dx, dy) = (b[0] - a[0], b[1] - a[1]);
+    let l2 = dx * dx + dy * dy;
+    let t = if l2 > 0.0 { (((p[0] - a[0]) * dx + (p[1] - a[1]) * dy) / l2).max(0.0).min(1.0) } else { 0.0 };
+    let (ex, ey) = (a[0] + t * dx - p[0], a[1] + t * dy - p[1]);
+    (ex * ex + ey * ey).sqrt()
+}
+
+/// Is `t` the direction of the outline where it passes `p`?  lyon reports the direction of the chord of its own
+/// flattening; the arc under a chord stays within the tolerance of the chord's line and (mean value theorem)
+/// is parallel to the chord somewhere: walk the fine outline from every piece that passes within `d` of `p`
+/// as long as it stays within `d` of the line (p, t) and look for a parallel piece (or a bracketing pair).
+fn a_tangent_ok(rings: &[Vec<P2>], p: P2, t: P2, d: f64) -> bool {
+    for ring in rings {
+        let n = ring.len();
+        if n < 2 {
+            continue;
+        }
+        let line_dist = |q: P2| ((q[0] - p[0]) * t[1] - (q[1] - p[1]) * t[0]).abs();
+        let cross = |j: usize| -> f64 {
+            let (a, b) = (ring[j % n], ring[(j + 1) % n]);
+            let (dx, dy) = (b[0] - a[0], b[1] - a[1]);
+            let l = (dx * dx + dy * dy).sqrt();
+            (dx * t[1] - dy * t[0]) / l
+        };
+        for i in 0..n {
+            if a_dist_pt_seg(p, ring[i], ring[(i + 1) % n]) > d {
+                continue;
+            }
+            let c0 = cross(i);
+            if c0.abs() <= 0.03 {
+                return true;
+            }
+            // forward
+            let mut prev = c0;
+            let mut j = i;
+            for _ in 0..n {
+                if line_dist(ring[(j + 1) % n]) > d {
+                    break;
+                }
+                j += 1;
+                let c = cross(j);
+                if c.abs() <= 0.03 || (c * prev < 0.0 && c.abs() < 0.5 && prev.abs() < 0.5) {
+                    return true;
+                }
+                prev = c;
+            }
+            // backward
+            let mut prev = c0;
+            let mut j = i + n;
+            for _ in 0..n {
+                if line_dist(ring[j % n]) > d {
+                    break;
+                }
+                j -= 1;
+                if j == 0 {
+                    break;
+                }
+                let c = cross(j);
+                if c.abs() <= 0.03 || (c * prev < 0.0 && c.abs() < 0.5 && prev.abs() < 0.5) {
+                    return true;
+                }
+                prev = c;
+            }
+        }
+    }
+    false
+}
+
+#[derive(Clone, Copy, Debug)]
+struct SegRec {
+    row: u32,
+    v: f32,
+    au: f32,
+    bu: f32,
+    ap: Point,
+    bp: Point,
+    at: Vector,
+    bt: Vector,
+    calls: u32,
+}
+
+impl SegRec {
+    fn of(s: &HatchSegment, calls: u32) -> Self {
+        SegRec { row: s.row, v: s.v, au: s.a.u, bu: s.b.u, ap: s.a.position, bp: s.b.position, at: s.a.tangent, bt: s.b.tangent, calls }
+    }
+    fn bits(&self) -> [u32; 13] {
+        [self.row, self.v.to_bits(), self.au.to_bits(), self.bu.to_bits(), self.ap.x.to_bits(), self.ap.y.to_bits(), self.bp.x.to_bits(), self.bp.y.to_bits(), self.at.x.to_bits(), self.at.y.to_bits(), self.bt.x.to_bits(), self.bt.y.to_bits(), self.calls]
+    }
+}
+
+const A_ROW_LIMIT: usize = 3000;
+const A_SEG_LIMIT: usize = 60000;
+
+struct HRec {
+    offsets: Vec<f32>,
+    calls: Vec<(u32, f32)>,
+    segs: Vec<SegRec>,
+    limit_hit: bool,
+}
+
+impl HatchBuilder for HRec {
+    fn add_segment(&mut self, s: &HatchSegment) {
+        if self.segs.len() >= A_SEG_LIMIT {
+            self.limit_hit = true;
+            return;
+        }
+        self.segs.push(SegRec::of(s, self.calls.len() as u32));
+    }
+    fn next_offset(&mut self, row: u32) -> f32 {
+        let k = self.calls.len();
+        if k >= A_ROW_LIMIT {
+            // the harness' guard against an endless sweep: an infinite offset ends it
+            self.limit_hit = true;
+            return f32::INFINITY;
+        }
+        let o = self.offsets[k % self.offsets.len()];
+        self.calls.push((row, o));
+        o
+    }
+}
+
+#[derive(Clone)]
+struct ACase {
+    label: String,
+    subs: Vec<Sub>,
+    angle: f32,
+    tol: f32,
+    uv: (f32, f32),
+    tangents: bool,
+    regular: bool,
+    offsets: Vec<f32>,
+}
+
+struct HOut {
+    segs: Vec<SegRec>,
+    calls: Vec<(u32, f32)>,
+    limit_hit: bool,
+}
+
+fn a_hatch(h: &mut Hatcher, path: &Path, c: &ACase) -> HOut {
+    use lyon_algorithms::hatching::RegularHatchingPattern;
+    let mut opts = HatchingOptions::DEFAULT.with_angle(Angle::radians(c.angle)).with_tolerance(c.tol).with_tangents(c.tangents);
+    opts.uv_origin = point(c.uv.0, c.uv.1);
+    if c.regular {
+        let mut segs: Vec<SegRec> = Vec::new();
+        let mut hit = false;
+        h.hatch_path(
+            path.iter(),
+            &opts,
+            &mut RegularHatchingPattern {
+                interval: c.offsets[0],
+                callback: &mut |s: &HatchSegment| {
+                    if segs.len() < A_SEG_LIMIT {
+                        segs.push(SegRec::of(s, u32::MAX))
+                    } else {
+                        hit = true
+                    }
+                },
+            },
+        );
+        HOut { segs, calls: vec![], limit_hit: hit }
+    } else {
+        let mut rec = HRec { offsets: c.offsets.clone(), calls: vec![], segs: vec![], limit_hit: false };
+        h.hatch_path(path.iter(), &opts, &mut rec);
+        HOut { segs: rec.segs, calls: rec.calls, limit_hit: rec.limit_hit }
+    }
+}
+
+struct Frame {
+    sn: f64,
+    cs: f64,
+    rr: Vec<Vec<P2>>,
+    ymin: f64,
+    ymax: f64,
+    scale: f64,
+    uvo: P2,
+    eps: f64,
+    d: f64,
+    slack: f64,
+}
+
+/// `exact`: the rings are the polygon that is hatched (nothing but rounding between it and lyon's edges);
+/// otherwise curves may be `dmul` tolerances away from the reference
+#[derive(Clone, Copy)]
+struct Mode {
+    exact: bool,
+    dmul: f64,
+}
+
+#[derive(Default)]
+struct Sink {
+    errs: Vec<(String, String)>,
+    ctr: std::collections::BTreeMap<&'static str, u64>,
+}
+
+impl Sink {
+    fn fail(&mut self, what: &str, detail: String) {
+        self.errs.push((what.to_string(), detail));
+    }
+    fn inc(&mut self, k: &'static str) {
+        *self.ctr.entry(k).or_insert(0) += 1;
+    }
+    fn add(&mut self, k: &'static str, n: u64) {
+        *self.ctr.entry(k).or_insert(0) += n;
+    }
+    fn flush_counters(&self, st: &mut Stats) {
+        for (k, v) in &self.ctr {
+            st.add(k, *v);
+        }
+    }
+}
+
+impl Frame {
+    fn rot(&self, p: P2) -> P2 {
+        [p[0] * self.cs - p[1] * self.sn, p[1] * self.cs + p[0] * self.sn]
+    }
+    fn rotp(&self, p: Point) -> P2 {
+        self.rot([p.x as f64, p.y as f64])
+    }
+    fn new(rings: &[Vec<P2>], angle: f32, uv: (f32, f32), tol: f32, curved: bool, mode: Mode) -> Frame {
+        let (sn, cs) = (angle as f64).sin_cos();
+        let mut f = Frame { sn, cs, rr: vec![], ymin: f64::INFINITY, ymax: f64::NEG_INFINITY, scale: 1.0, uvo: [0.0, 0.0], eps: 0.0, d: 0.0, slack: 0.0 };
+        f.rr = rings.iter().map(|r| r.iter().map(|p| f.rot(*p)).collect()).collect();
+        for ring in &f.rr {
+            if ring.len() < 2 {
+                continue;
+            }
+            for p in ring {
+                f.ymin = f.ymin.min(p[1]);
+                f.ymax = f.ymax.max(p[1]);
+                f.scale = f.scale.max(p[0].abs()).max(p[1].abs());
+            }
+        }
+        f.uvo = f.rot([uv.0 as f64, uv.1 as f64]);
+        f.scale = f.scale.max(f.uvo[0].abs()).max(f.uvo[1].abs());
+        // f32 rounding of rotated coordinates
+        f.eps = 2e-5 * f.scale;
+        // how far the hatched outline may be from the true one: nothing but rounding for polygons,
+        // the flattening tolerance (+ the reference's own 5e-5) for curves
+        f.slack = if curved && !mode.exact { mode.dmul * tol as f64 + 1e-4 } else { 0.0 };
+        f.d = if curved && !mode.exact { f.slack + f.eps } else { 2.5 * f.eps };
+        f
+    }
+}
+
+fn a_fail(st: &mut Stats, what: &str, label: &str, detail: String) {
+    st.fail(jobj(&[("what", jstr(what)), ("input", jstr(&format!("{} :: {}", label, detail)))]));
+}
+
+/// checks 1-3 on the output of one hatch_path call; returns false if anything failed
+fn a_check_hatch(sk: &mut Sink, c: &ACase, rings: &[Vec<P2>], out: &HOut, mode: Mode) -> bool {
+    let fr = Frame::new(rings, c.angle, c.uv, c.tol, a_curved(&c.subs), mode);
+    let fails0 = sk.errs.len();
+    if fr.ymin > fr.ymax {
+        // nothing but points: no output
+        if !out.segs.is_empty() {
+            sk.fail("audit: a path without any edge produced hatches", format!("{} segments", out.segs.len()));
+        }
+        return out.segs.is_empty();
+    }
+    let (eps, d) = (fr.eps, fr.d);
+    // ---- the offsets the pattern returned
+    if !c.regular {
+        for (k, (row, _)) in out.calls.iter().enumerate() {
+            if *row as usize != k {
+                sk.fail("audit: next_offset is not asked for rows 0, 1, 2, ... in turn", format!("call {} asked for row {}", k, row));
+                break;
+            }
+        }
+    }
+    let off = |k: usize| -> f64 {
+        if c.regular {
+            c.offsets[0] as f64
+        } else if k < out.calls.len() {
+            out.calls[k].1 as f64
+        } else {
+            c.offsets[k % c.offsets.len()] as f64
+        }
+    };
+    let mut cum: Vec<f64> = Vec::new();
+    let mut cum_to = |k: usize| -> f64 {
+        while cum.len() <= k {
+            let s = cum.last().copied().unwrap_or(0.0);
+            let i = cum.len();
+            cum.push(s + off(i));
+        }
+        cum[k]
+    };
+    // ---- per segment: fields, row line, order
+    let mut base: Option<f64> = None;
+    let mut prev: Option<&SegRec> = None;
+    let tan_step = (2 * out.segs.len() / 40).max(1);
+    let mut tan_ctr = 0usize;
+    for s in &out.segs {
+        if s.row as usize > A_ROW_LIMIT + 1 || sk.errs.len() > fails0 {
+            break;
+        }
+        let (pa, pb) = (fr.rotp(s.ap), fr.rotp(s.bp));
+        let det = || format!("row {} v {} a=({:?}, u {}) b=({:?}, u {})", s.row, s.v, s.ap, s.au, s.bp, s.bu);
+        // 3. (u, v) is the rotated position relative to the rotated uv origin
+        let e = (pa[0] - fr.uvo[0] - s.au as f64).abs().max((pb[0] - fr.uvo[0] - s.bu as f64).abs()).max((pa[1] - fr.uvo[1] - s.v as f64).abs()).max((pb[1] - fr.uvo[1] - s.v as f64).abs());
+        if !(e <= eps) {
+            sk.fail("audit: HatchSegment position is not the point (u, v) of the rotated frame at uv_origin", format!("{} off by {}", det(), e));
+            break;
+        }
+        // 1. row numbering and row line
+        if !c.regular && (s.calls == 0 || s.row != s.calls - 1) {
+            sk.fail("audit: HatchSegment::row is not the number of rows swept before it", format!("{} after {} next_offset calls", det(), s.calls));
+            break;
+        }
+        let cr = cum_to(s.row as usize);
+        let b0 = *base.get_or_insert(pa[1] - cr);
+        let rowtol = eps + 2e-6 * fr.scale * (s.row as f64 + 1.0);
+        if !((pa[1] - cr - b0).abs() <= rowtol && (pb[1] - cr - b0).abs() <= rowtol) {
+            sk.fail("audit: rows are not spaced by the offsets the pattern returned (or an end point is off its row line)", format!("{} y' {} / {} expected {}", det(), pa[1], pb[1], b0 + cr));
+            break;
+        }
+        // 2. order within the row, rows in order
+        if !(s.au <= s.bu) {
+            sk.fail("audit: hatch segment end points are not ordered (a.u <= b.u)", det());
+            break;
+        }
+        if let Some(p) = prev {
+            if s.row < p.row || (s.row == p.row && !(s.au >= p.bu)) {
+                sk.fail("audit: hatch segments are not emitted in order / overlap", format!("{} after row {} b.u {}", det(), p.row, p.bu));
+                break;
+            }
+        }
+        prev = Some(s);
+        // 3. tangents
+        if c.tangents {
+            for (pos, t) in [(s.ap, s.at), (s.bp, s.bt)] {
+                let (tx, ty) = (t.x as f64, t.y as f64);
+                let len = (tx * tx + ty * ty).sqrt();
+                let down = fr.rot([tx, ty])[1];
+                if !((len - 1.0).abs() <= 1e-3 && down >= -1e-3) {
+                    sk.fail("audit: tangent is not a unit vector pointing to increasing v", format!("{} tangent {:?}", det(), t));
+                    break;
+                }
+                tan_ctr += 1;
+                if tan_ctr % tan_step == 0 {
+                    sk.inc("audit_tangents_checked");
+                    if !a_tangent_ok(rings, [pos.x as f64, pos.y as f64], [tx / len, ty / len], d + eps) {
+                        sk.fail("audit: tangent is not the direction of the outline at the end point", format!("{} end {:?} tangent {:?}", det(), pos, t));
+                        break;
+                    }
+                }
+            }
+        } else if !(s.at.x.is_nan() && s.at.y.is_nan() && s.bt.x.is_nan() && s.bt.y.is_nan()) {
+            sk.fail("audit: compute_tangents off, yet the tangent fields hold numbers (stale?)", format!("{} tangents {:?} {:?}", det(), s.at, s.bt));
+            break;
+        }
+    }
+    // first row: offset(0) below the top of the (flattened) outline
+    let slack = fr.slack;
+    let mut dd = d;
+    let base = match base {
+        Some(b) => {
+            if !(b >= fr.ymin - slack - eps && b <= fr.ymin + slack + eps) {
+                sk.fail("audit: row 0 is not offset(0) below the top of the outline", format!("rows start from y' {} but the outline's top is {}", b, fr.ymin));
+            }
+            b
+        }
+        None => {
+            // no output: the position of lyon's rows is known up to the tolerance only
+            dd += slack;
+            fr.ymin
+        }
+    };
+    // ---- 2. per row: emitted union == interior intervals, up to the points within d of the outline
+    if out.limit_hit {
+        sk.inc("audit_row_limit_hit");
+    }
+    let mut k = 0usize;
+    let mut last_row_checked = 0usize;
+    let mut idx = 0usize;
+    let mut ok_rows = true;
+    while !out.limit_hit && k < A_ROW_LIMIT {
+        let y = base + cum_to(k);
+        if y.is_nan() || y > fr.ymax + dd + eps {
+            break;
+        }
+        last_row_checked = k;
+        let (r, u) = a_row_ref(&fr.rr, y, dd);
+        while idx < out.segs.len() && (out.segs[idx].row as usize) < k {
+            idx += 1;
+        }
+        let mut e: Vec<(f64, f64)> = Vec::new();
+        while idx < out.segs.len() && out.segs[idx].row as usize == k {
+            let s = &out.segs[idx];
+            let (xa, xb) = (fr.rotp(s.ap)[0], fr.rotp(s.bp)[0]);
+            if xb - xa <= 1e-9 {
+                sk.inc("audit_zero_length_segments");
+                // a point: must be on the closed interior or near the outline
+                if !(r.iter().any(|(a, b)| *a - eps <= xa && xa <= *b + eps) || a_within(&u, xa, xa)) {
+                    sk.fail("audit: zero-length hatch segment away from the shape", format!("row {} y' {} x' {}", k, y, xa));
+                    ok_rows = false;
+                }
+            } else {
+                e.push((xa, xb));
+            }
+            idx += 1;
+        }
+        sk.inc("audit_rows");
+        if !r.is_empty() {
+            sk.inc("audit_rows_meeting_interior");
+        }
+        if fr.rr.iter().any(|ring| ring.iter().any(|p| (p[1] - y).abs() <= eps)) {
+            sk.inc("audit_rows_through_vertex");
+        }
+        for (l, rt, in_e) in a_xor(&e, &r) {
+            if rt - l > 1e-9 && !a_within(&u, l, rt) {
+                let what = if in_e { "audit: hatch segment covers points outside the even-odd interior (beyond the tolerance)" } else { "audit: interior points of a row (farther than the tolerance from the outline) are not hatched" };
+                sk.fail(what, format!("row {} y' {} x' in [{}, {}] emitted {:?} reference {:?}", k, y, l, rt, e, r));
+                ok_rows = false;
+                break;
+            }
+        }
+        if !ok_rows {
+            break;
+        }
+        // a non-positive offset (after the first) ends the hatching: see the report
+        if off(k + 1) <= 0.0 {
+            sk.inc("audit_stopped_by_nonpositive_offset");
+            break;
+        }
+        k += 1;
+    }
+    if !out.limit_hit && ok_rows {
+        if let Some(s) = out.segs.iter().find(|s| s.row as usize > last_row_checked) {
+            if s.bu > s.au {
+                sk.fail("audit: hatch segment on a row beyond the shape", format!("row {} (last row meeting the shape: {})", s.row, last_row_checked));
+            }
+        }
+    }
+    sk.add("audit_segments", out.segs.len() as u64);
+    sk.errs.len() == fails0
+}
+
+// ---------------------------------------------------------------------------------- dots
+#[derive(Clone, Copy, Debug)]
+struct DotRec {
+    pos: Point,
+    u: f32,
+    v: f32,
+    column: u32,
+    row: u32,
+}
+
+#[derive(Clone, Copy, Debug)]
+enum DEv {
+    Seg(u32),
+    Dot(DotRec),
+    Col(u32, u32, f32),
+    Row(u32, u32, f32),
+}
+
+impl DEv {
+    fn bits(&self) -> [u32; 7] {
+        match self {
+            DEv::Seg(r) => [0, *r, 0, 0, 0, 0, 0],
+            DEv::Dot(d) => [1, d.pos.x.to_bits(), d.pos.y.to_bits(), d.u.to_bits(), d.v.to_bits(), d.column, d.row],
+            DEv::Col(c, r, o) => [2, *c, *r, o.to_bits(), 0, 0, 0],
+            DEv::Row(c, r, o) => [3, *c, *r, o.to_bits(), 0, 0, 0],
+        }
+    }
+}
+
+const A_DOT_LIMIT: usize = 200000;
+
+struct DRec {
+    fco: f32,
+    align: Option<f32>,
+    row_offs: Vec<f32>,
+    col_offs: Vec<f32>,
+    ev: Vec<DEv>,
+    nrow: usize,
+    ncol: usize,
+    limit_hit: bool,
+}
+
+impl DotBuilder for DRec {
+    fn first_column_offset(&mut self, row: u32) -> f32 {
+        self.ev.push(DEv::Seg(row));
+        self.fco
+    }
+    fn alignment(&mut self, _row: u32) -> Option<f32> {
+        self.align
+    }
+    fn next_row_offset(&mut self, column: u32, row: u32) -> f32 {
+        if self.nrow >= A_ROW_LIMIT {
+            self.limit_hit = true;
+            return f32::INFINITY;
+        }
+        let o = self.row_offs[self.nrow % self.row_offs.len()];
+        self.nrow += 1;
+        self.ev.push(DEv::Row(column, row, o));
+        o
+    }
+    fn next_column_offset(&mut self, column: u32, row: u32) -> f32 {
+        if self.ncol >= A_DOT_LIMIT {
+            self.limit_hit = true;
+            return f32::INFINITY;
+        }
+        let o = self.col_offs[self.ncol % self.col_offs.len()];
+        self.ncol += 1;
+        self.ev.push(DEv::Col(column, row, o));
+        o
+    }
+    fn add_dot(&mut self, d: &Dot) {
+        self.ev.push(DEv::Dot(DotRec { pos: d.position, u: d.u, v: d.v, column: d.column, row: d.row }));
+    }
+}
+
+#[derive(Clone, Debug)]
+struct DCase {
+    regular: bool,
+    row_offs: Vec<f32>,
+    col_offs: Vec<f32>,
+    fco: f32,
+    align: Option<f32>,
+}
+
+fn a_dots(h: &mut Hatcher, path: &Path, c: &ACase, dc: &DCase) -> (Vec<DEv>, bool) {
+    use lyon_algorithms::hatching::RegularDotPattern;
+    let mut opts = DotOptions::DEFAULT.with_angle(Angle::radians(c.angle)).with_tolerance(c.tol);
+    opts.uv_origin = point(c.uv.0, c.uv.1);
+    if dc.regular {
+        let mut ev: Vec<DEv> = Vec::new();
+        let mut hit = false;
+        h.dot_path(
+            path.iter(),
+            &opts,
+            &mut RegularDotPattern {
+                row_interval: dc.row_offs[0],
+                column_interval: dc.col_offs[0],
+                callback: &mut |d: &Dot| {
+                    if ev.len() < A_DOT_LIMIT {
+                        ev.push(DEv::Dot(DotRec { pos: d.position, u: d.u, v: d.v, column: d.column, row: d.row }))
+                    } else {
+                        hit = true
+                    }
+                },
+            },
+        );
+        (ev, hit)
+    } else {
+        let mut rec = DRec { fco: dc.fco, align: dc.align, row_offs: dc.row_offs.clone(), col_offs: dc.col_offs.clone(), ev: vec![], nrow: 0, ncol: 0, limit_hit: false };
+        h.dot_path(path.iter(), &opts, &mut rec);
+        (rec.ev, rec.limit_hit)
+    }
+}
+
+/// check 4 on the output of one dot_path call
+fn a_check_dots(sk: &mut Sink, c: &ACase, dc: &DCase, rings: &[Vec<P2>], ev: &[DEv], limit_hit: bool, mode: Mode) {
+    let fr = Frame::new(rings, c.angle, c.uv, c.tol, a_curved(&c.subs), mode);
+    let ndots = ev.iter().filter(|e| matches!(e, DEv::Dot(_))).count();
+    sk.add("audit_dots", ndots as u64);
+    if fr.ymin > fr.ymax {
+        if ndots != 0 {
+            sk.fail("audit: a path without any edge produced dots", format!("{} dots", ndots));
+        }
+        return;
+    }
+    let (eps, d) = (fr.eps, fr.d);
+    let roff = |k: usize| -> f64 { dc.row_offs[if dc.regular { 0 } else { k % dc.row_offs.len() }] as f64 };
+    let mut cum: Vec<f64> = Vec::new();
+    let mut cum_to = |k: usize| -> f64 {
+        while cum.len() <= k {
+            let s = cum.last().copied().unwrap_or(0.0);
+            let i = cum.len();
+            cum.push(s + roff(i));
+        }
+        cum[k]
+    };
+    // the lattice, if the pattern defines one: u = fco + j * dl relative to uv_origin
+    let lattice: Option<(f64, f64)> = if dc.regular {
+        Some((dc.col_offs[0] as f64, 0.0))
+    } else {
+        match dc.align {
+            Some(a) if dc.col_offs.iter().all(|o| *o == a) && dc.fco >= 0.0 => Some((a as f64, dc.fco as f64)),
+            _ => None,
+        }
+    };
+    // ---- pass 1: fields, numbering, spacing along the row
+    let mut cur_row: i64 = -1;
+    let mut col_in_row = 0u32;
+    let mut base: Option<f64> = None;
+    let mut by_row: std::collections::BTreeMap<u32, Vec<f64>> = Default::default();
+    let mut firsts: Vec<(u32, f64)> = Vec::new(); // first dot of a hatch segment: row, x'
+    let mut ends: Vec<(u32, f64, f64)> = Vec::new(); // last dot of a hatch segment: row, x', the offset returned after it
+    let mut prev_in_seg: Option<(DotRec, f64)> = None;
+    let mut last_col: Option<f32> = None;
+    let mut seg_fresh = false;
+    let mut prev_dot: Option<DotRec> = None;
+    let mut bad = false;
+    let close = |prev_in_seg: &mut Option<(DotRec, f64)>, last_col: &mut Option<f32>, ends: &mut Vec<(u32, f64, f64)>| {
+        if let (Some((p, x)), Some(o)) = (prev_in_seg.take(), last_col.take()) {
+            if o > 0.0 && o.is_finite() {
+                ends.push((p.row, x, o as f64));
+            }
+        }
+    };
+    for e in ev {
+        match e {
+            DEv::Seg(_) => {
+                close(&mut prev_in_seg, &mut last_col, &mut ends);
+                seg_fresh = true;
+            }
+            DEv::Row(_, _, _) => {
+                close(&mut prev_in_seg, &mut last_col, &mut ends);
+                cur_row += 1;
+                col_in_row = 0;
+            }
+            DEv::Col(_, _, o) => last_col = Some(*o),
+            DEv::Dot(dt) => {
+                let p = fr.rotp(dt.pos);
+                let det = format!("dot {:?}", dt);
+                if !(dt.pos.x.is_finite() && dt.pos.y.is_finite() && dt.u.is_finite() && dt.v.is_finite()) {
+                    sk.fail("audit: dot with a non-finite position", det);
+                    bad = true;
+                    break;
+                }
+                let e3 = (p[0] - fr.uvo[0] - dt.u as f64).abs().max((p[1] - fr.uvo[1] - dt.v as f64).abs());
+                if !(e3 <= eps) {
+                    sk.fail("audit: Dot position is not the point (u, v) of the rotated frame at uv_origin", format!("{} off by {}", det, e3));
+                    bad = true;
+                    break;
+                }
+                if dc.regular {
+                    if let Some(pd) = prev_dot {
+                        if dt.row < pd.row {
+                            sk.fail("audit: dots are not emitted row by row", det.clone());
+                            bad = true;
+                            break;
+                        }
+                        if dt.row != pd.row {
+                            col_in_row = 0;
+                        }
+                    }
+                } else if dt.row as i64 != cur_row {
+                    sk.fail("audit: Dot::row is not the number of rows swept before it", format!("{} in row {}", det, cur_row));
+                    bad = true;
+                    break;
+                }
+                if dt.column != col_in_row {
+                    sk.fail("audit: Dot::column is not the ordinal of the dot in its row", format!("{} is dot number {} of the row", det, col_in_row));
+                    bad = true;
+                    break;
+                }
+                col_in_row += 1;
+                if let Some(pd) = prev_dot {
+                    if pd.row == dt.row && !(dt.u >= pd.u) {
+                        sk.fail("audit: dots of a row are not emitted in order", format!("{} after u {}", det, pd.u));
+                        bad = true;
+                        break;
+                    }
+                }
+                let cr = cum_to(dt.row as usize);
+                let b0 = *base.get_or_insert(p[1] - cr);
+                if !((p[1] - cr - b0).abs() <= eps + 2e-6 * fr.scale * (dt.row as f64 + 1.0)) {
+                    sk.fail("audit: dot rows are not spaced by the row offsets the pattern returned", format!("{} y' {} expected {}", det, p[1], b0 + cr));
+                    bad = true;
+                    break;
+                }
+                if let Some((dl, fco)) = lattice {
+                    let q = (dt.u as f64 - fco) / dl;
+                    if !((q - q.round()).abs() * dl <= 5.0 * eps) {
+                        sk.fail("audit: dot is not on the lattice the pattern defines (alignment)", format!("{} (u - first_column_offset) / alignment = {}", det, q));
+                        bad = true;
+                        break;
+                    }
+                }
+                if !dc.regular {
+                    if seg_fresh {
+                        firsts.push((dt.row, p[0]));
+                        seg_fresh = false;
+                    } else if let (Some((pd, _)), Some(o)) = (prev_in_seg, last_col) {
+                        if !((dt.u as f64 - pd.u as f64 - o as f64).abs() <= 5.0 * eps) {
+                            sk.fail("audit: consecutive dots of a hatch segment are not spaced by the column offset the pattern returned", format!("{} previous u {} offset {}", det, pd.u, o));
+                            bad = true;
+                            break;
+                        }
+                    }
+                    prev_in_seg = Some((*dt, p[0]));
+                    last_col = None;
+                }
+                by_row.entry(dt.row).or_default().push(p[0]);
+                prev_dot = Some(*dt);
+            }
+        }
+    }
+    close(&mut prev_in_seg, &mut last_col, &mut ends);
+    if bad {
+        return;
+    }
+    let slack = fr.slack;
+    let mut dd = d;
+    let base = match base {
+        Some(b) => {
+            if !(b >= fr.ymin - slack - eps && b <= fr.ymin + slack + eps) {
+                sk.fail("audit: dot row 0 is not the first row offset below the top of the outline", format!("rows start from y' {} but the outline's top is {}", b, fr.ymin));
+            }
+            b
+        }
+        None => {
+            dd += slack;
+            fr.ymin
+        }
+    };
+    if limit_hit {
+        sk.inc("audit_dot_limit_hit");
+        return;
+    }
+    // ---- pass 2: per row against the interior intervals
+    let empty: Vec<f64> = Vec::new();
+    let mut k = 0usize;
+    let mut last_row = 0usize;
+    while k < A_ROW_LIMIT {
+        let y = base + cum_to(k);
+        if y.is_nan() || y > fr.ymax + dd + eps {
+            break;
+        }
+        last_row = k;
+        let (r, u) = a_row_ref(&fr.rr, y, dd);
+        let xs = by_row.get(&(k as u32)).unwrap_or(&empty);
+        for x in xs {
+            sk.inc("audit_dots_checked");
+            if !(r.iter().any(|(a, b)| *a - eps <= *x && *x <= *b + eps) || a_within(&u, *x, *x)) {
+                sk.fail("audit: dot lies outside the shape (farther than the tolerance from the outline)", format!("row {} y' {} x' {} interior {:?}", k, y, x, r));
+                return;
+            }
+        }
+        for (row, x) in firsts.iter().filter(|f| f.0 as usize == k) {
+            let start = *x - dc.fco as f64;
+            match dc.align {
+                None => {
+                    // first dot = left end of the interval + first_column_offset
+                    if !a_within(&u, start, start) {
+                        sk.fail("audit: first dot of a segment is not first_column_offset after the left end of an interior interval", format!("row {} x' {} interior {:?}", row, x, r));
+                        return;
+                    }
+                }
+                Some(al) => {
+                    // the smallest multiple of the alignment after the left end: the previous one must not be well inside the same interval
+                    if a_def_inside(&r, &u, start - al as f64, start) {
+                        sk.fail("audit: first dot of a segment skips an aligned position inside the interval", format!("row {} x' {} interior {:?}", row, x, r));
+                        return;
+                    }
+                }
+            }
+        }
+        for (row, x, o) in ends.iter().filter(|f| f.0 as usize == k) {
+            if a_def_inside(&r, &u, *x, *x + *o) {
+                sk.fail("audit: a row of dots stops although the next position is well inside the same interval", format!("row {} last x' {} + offset {} interior {:?}", row, x, o, r));
+                return;
+            }
+        }
+        if let Some((dl, fco)) = lattice {
+            for (l, rt) in &r {
+                let j0 = ((*l - fr.uvo[0] - fco) / dl).ceil() as i64;
+                let j1 = ((*rt - fr.uvo[0] - fco) / dl).floor() as i64;
+                for j in j0..=j1 {
+                    let x = j as f64 * dl + fco + fr.uvo[0];
+                    if a_def_inside(&r, &u, x - fco - 2.0 * eps, x + 2.0 * eps) {
+                        sk.inc("audit_lattice_points_inside");
+                        if !xs.iter().any(|q| (*q - x).abs() <= 5.0 * eps + 1e-4) {
+                            sk.fail("audit: a lattice point well inside the shape has no dot", format!("row {} y' {} x' {} (u {}) dots at x' {:?}", k, y, x, x - fr.uvo[0], xs));
+                            return;
+                        }
+                    }
+                }
+            }
+        }
+        if roff(k + 1) <= 0.0 {
+            break;
+        }
+        k += 1;
+    }
+    if let Some((row, _)) = by_row.iter().find(|(row, _)| **row as usize > last_row) {
+        sk.fail("audit: dots on a row beyond the shape", format!("row {} (last row meeting the shape: {})", row, last_row));
+    }
+}
+
+// ---------------------------------------------------------------------------------- inputs
+fn a_poly(pts: &[(f32, f32)], close: bool) -> Sub {
+    Sub { s: pts[0], g: pts[1..].iter().map(|p| Sg::L(*p)).collect(), close }
+}
+
+fn a_rect(x0: f32, y0: f32, x1: f32, y1: f32, ccw: bool, close: bool) -> Sub {
+    if ccw {
+        a_poly(&[(x0, y0), (x0, y1), (x1, y1), (x1, y0)], close)
+    } else {
+        a_poly(&[(x0, y0), (x1, y0), (x1, y1), (x0, y1)], close)
+    }
+}
+
+fn a_circle_cubic(cx: f32, cy: f32, r: f32, rev: bool) -> Sub {
+    let k = 0.552_284_75 * r;
+    let s = if rev { -1.0 } else { 1.0 };
+    Sub {
+        s: (cx + r, cy),
+        g: vec![
+            Sg::C((cx + r, cy + s * k), (cx + k, cy + s * r), (cx, cy + s * r)),
+            Sg::C((cx - k, cy + s * r), (cx - r, cy + s * k), (cx - r, cy)),
+            Sg::C((cx - r, cy - s * k), (cx - k, cy - s * r), (cx, cy - s * r)),
+            Sg::C((cx + k, cy - s * r), (cx + r, cy - s * k), (cx + r, cy)),
+        ],
+        close: true,
+    }
+}
+
+fn a_circle_quad(cx: f32, cy: f32, r: f32) -> Sub {
+    // 8 quadratic arcs
+    let n = 8;
+    let pt = |a: f32, rr: f32| (cx + rr * a.cos(), cy + rr * a.sin());
+    let step = std::f32::consts::TAU / n as f32;
+    let rc = r / (step * 0.5).cos();
+    let mut g = Vec::new();
+    for i in 0..n {
+        g.push(Sg::Q(pt(step * (i as f32 + 0.5), rc), pt(step * (i as f32 + 1.0), r)));
+    }
+    Sub { s: pt(0.0, r), g, close: true }
+}
+
+fn a_gen_subs(rng: &mut Rng, fam: u64) -> Vec<Sub> {
+    let li = |r: &mut Rng| (r.range(-4, 8) as f32, r.range(-4, 8) as f32);
+    let gp = |r: &mut Rng| (r.range(-6, 10) as f32, r.range(-6, 10) as f32);
+    match fam {
+        // random lattice polygons, open and closed
+        0 => (0..1 + rng.below(3))
+            .map(|_| {
+                let k = 3 + rng.below(4) as usize;
+                let pts: Vec<(f32, f32)> = (0..k).map(|_| li(rng)).collect();
+                a_poly(&pts, rng.chance(1, 2))
+            })
+            .collect(),
+        // nested rectangles: holes under even-odd whatever the orientation
+        1 => {
+            let mut v = vec![a_rect(-4.0, -3.0, 8.0, 7.0, false, true)];
+            v.push(a_rect(-2.0, -1.0, 6.0, 5.0, rng.chance(1, 2), rng.chance(2, 3)));
+            if rng.chance(1, 2) {
+                v.push(a_rect(0.0, 1.0, 3.0, 3.0, rng.chance(1, 2), true));
+            }
+            if rng.chance(1, 3) {
+                v.push(a_rect(4.0, 0.0, 5.0, 4.0, rng.chance(1, 2), true));
+            }
+            if rng.chance(1, 2) {
+                // inside the outer rectangle, sharing a part of one of its edges
+                let x = rng.range(-3, 4) as f32;
+                let w = rng.range(1, 3) as f32;
+                v.push(match rng.below(4) {
+                    0 => a_rect(x, -3.0, x + w, -2.0, rng.chance(1, 2), true),
+                    1 => a_rect(x, 6.0, x + w, 7.0, rng.chance(1, 2), true),
+                    2 => a_rect(-4.0, x.min(4.0), -3.0, x.min(4.0) + w, rng.chance(1, 2), true),
+                    _ => a_rect(7.0, x.min(4.0), 8.0, x.min(4.0) + w, rng.chance(1, 2), true),
+                });
+            }
+            v
+        }
+        // overlapping rectangles
+        2 => (0..2 + rng.below(2))
+            .map(|_| {
+                let (x0, y0) = (rng.range(-4, 4) as f32, rng.range(-4, 4) as f32);
+                let (w, h) = (rng.range(1, 6) as f32, rng.range(1, 6) as f32);
+                a_rect(x0, y0, x0 + w, y0 + h, rng.chance(1, 2), rng.chance(3, 4))
+            })
+            .collect(),
+        // self-intersecting: star polygons, bow ties
+        3 => {
+            if rng.chance(1, 3) {
+                vec![a_poly(&[(0.0, 0.0), (6.0, 6.0), (6.0, 0.0), (0.0, 6.0)], rng.chance(1, 2))]
+            } else {
+                let n = *rng.pick(&[5usize, 7, 8, 9]);
+                let stp = *rng.pick(&[2usize, 3]);
+                let r = rng.range(3, 7) as f32;
+                let (cx, cy) = (rng.range(-2, 4) as f32, rng.range(-2, 4) as f32);
+                let ph = rng.range(0, 7) as f32 * 0.25;
+                let pts: Vec<(f32, f32)> = (0..n).map(|i| ((i * stp) % n) as f32 * std::f32::consts::TAU / n as f32 + ph).map(|a| (cx + r * a.cos(), cy + r * a.sin())).collect();
+                let mut v = vec![a_poly(&pts, rng.chance(1, 2))];
+                if rng.chance(1, 3) {
+                    v.push(a_rect(cx - 1.0, cy - 1.0, cx + 1.0, cy + 1.0, true, true));
+                }
+                v
+            }
+        }
+        // open sub-paths only
+        4 => (0..1 + rng.below(2))
+            .map(|_| {
+                let k = 3 + rng.below(4) as usize;
+                let pts: Vec<(f32, f32)> = (0..k).map(|_| li(rng)).collect();
+                a_poly(&pts, false)
+            })
+            .collect(),
+        // random lines / quadratics / cubics
+        5 => (0..1 + rng.below(2))
+            .map(|_| {
+                let s = gp(rng);
+                let g = (0..1 + rng.below(4))
+                    .map(|_| match rng.below(3) {
+                        0 => Sg::L(gp(rng)),
+                        1 => Sg::Q(gp(rng), gp(rng)),
+                        _ => Sg::C(gp(rng), gp(rng), gp(rng)),
+                    })
+                    .collect();
+                Sub { s, g, close: rng.chance(1, 2) }
+            })
+            .collect(),
+        // discs and rings
+        6 => {
+            let (cx, cy) = (rng.range(-2, 4) as f32 * 0.5, rng.range(-2, 4) as f32 * 0.5);
+            let r = rng.range(3, 8) as f32;
+            let mut v = vec![if rng.chance(1, 2) { a_circle_cubic(cx, cy, r, false) } else { a_circle_quad(cx, cy, r) }];
+            if rng.chance(2, 3) {
+                let r2 = r * *rng.pick(&[0.25f32, 0.5, 0.75]);
+                v.push(if rng.chance(1, 2) { a_circle_cubic(cx, cy, r2, rng.chance(1, 2)) } else { a_circle_quad(cx + 0.5, cy, r2) });
+            }
+            if rng.chance(1, 3) {
+                v.push(a_circle_cubic(cx + r, cy, r * 0.5, false));
+            }
+            v
+        }
+        // repeated points, collinear runs, spikes of zero area
+        7 => {
+            let k = 3 + rng.below(4) as usize;
+            let mut pts: Vec<(f32, f32)> = Vec::new();
+            for _ in 0..k {
+                let p = li(rng);
+                pts.push(p);
+                match rng.below(4) {
+                    0 => pts.push(p),
+                    1 => {
+                        let q = li(rng);
+                        pts.push(q);
+                        pts.push(p);
+                    }
+                    2 => {
+                        let q = li(rng);
+                        pts.push(((p.0 + q.0) * 0.5, (p.1 + q.1) * 0.5));
+                        pts.push(q);
+                    }
+                    _ => {}
+                }
+            }
+            let mut v = vec![a_poly(&pts, rng.chance(1, 2))];
+            if rng.chance(1, 3) {
+                v.push(a_poly(&[li(rng)], true));
+            }
+            if rng.chance(1, 3) {
+                let (p, q) = (li(rng), li(rng));
+                v.push(a_poly(&[p, q], rng.chance(1, 2)));
+            }
+            v
+        }
+        // loops of a single cubic / quadratic spikes
+        8 => {
+            let (x, y) = (rng.range(-4, 2) as f32, rng.range(-4, 2) as f32);
+            let w = rng.range(4, 9) as f32;
+            let mut v = vec![Sub { s: (x, y), g: vec![Sg::C((x + 2.0 * w, y + w), (x - w, y + w), (x + w, y))], close: rng.chance(1, 2) }];
+            if rng.chance(1, 2) {
+                v.push(Sub { s: (x, y + 1.0), g: vec![Sg::Q((x + w, y + 2.0 * w), (x + w, y + 1.0)), Sg::Q((x + 0.5 * w, y + w), (x, y + 1.0))], close: true });
+            }
+            v
+        }
+        // thin and small shapes
+        9 => {
+            let (x, y) = (rng.range(-4, 4) as f32, rng.range(-4, 4) as f32);
+            match rng.below(3) {
+                0 => vec![a_rect(x, y, x + 8.0, y + *rng.pick(&[0.001f32, 0.01, 0.3]), false, true)],
+                1 => vec![a_poly(&[(x, y), (x + 9.0, y + 0.01), (x + 4.0, y + 7.0), (x + 4.0, y + 6.99)], true)],
+                _ => vec![a_rect(x, y, x + 0.03, y + 0.05, true, true), a_circle_cubic(x, y, 0.04, false)],
+            }
+        }
+        // rectilinear "histogram": rows along edges at the axis-parallel angles
+        10 => {
+            let n = 2 + rng.below(6) as i64;
+            let x0 = rng.range(-4, 0) as f32;
+            let y0 = rng.range(-4, 2) as f32;
+            let mut pts = vec![(x0, y0)];
+            for i in 0..n {
+                let h = rng.range(1, 6) as f32;
+                pts.push((x0 + i as f32, y0 + h));
+                pts.push((x0 + i as f32 + 1.0, y0 + h));
+            }
+            pts.push((x0 + n as f32, y0));
+            let mut v = vec![a_poly(&pts, rng.chance(2, 3))];
+            if rng.chance(1, 3) {
+                v.push(a_rect(x0, y0 - 2.0, x0 + n as f32, y0 + 1.0, rng.chance(1, 2), true));
+            }
+            v
+        }
+        // mixed
+        _ => {
+            let mut v = vec![a_rect(-3.0, -2.0, 5.0, 4.0, rng.chance(1, 2), true), a_circle_cubic(4.0, 3.0, rng.range(2, 4) as f32, rng.chance(1, 2))];
+            if rng.chance(1, 2) {
+                v.push(Sub { s: gp(rng), g: vec![Sg::Q(gp(rng), gp(rng)), Sg::L(gp(rng))], close: false });
+            }
+            v
+        }
+    }
+}
+
+fn a_gen(rng: &mut Rng, i: usize) -> (ACase, DCase) {
+    use std::f32::consts::{FRAC_PI_2, FRAC_PI_4, PI};
+    let fam = (i % 12) as u64;
+    let subs = a_gen_subs(rng, fam);
+    let angle = match (i / 12) % 10 {
+        0 => 0.0,
+        1 => FRAC_PI_2,
+        2 => PI,
+        3 => -FRAC_PI_2,
+        4 => FRAC_PI_4 * rng.range(-8, 8) as f32,
+        5 => -rng.range(1, 600) as f32 * 0.01,
+        6 => 0.26 * rng.range(0, 24) as f32,
+        7 => *rng.pick(&[1e-3f32, -1e-3, 2.0 * PI, 3.0 * FRAC_PI_2, FRAC_PI_2 + 1e-4]),
+        _ => (rng.unit_f64() * 14.0 - 7.0) as f32,
+    };
+    let tol = *rng.pick(&[0.01f32, 0.02, 0.05, 0.1, 0.25]);
+    let uv = match rng.below(4) {
+        0 => (0.0, 0.0),
+        1 => (1.5, -2.25),
+        _ => (rng.range(-12, 12) as f32 * 0.25, rng.range(-12, 12) as f32 * 0.125),
+    };
+    let regular = i % 2 == 0;
+    let tangents = (i / 2) % 2 == 0;
+    let r2 = std::f32::consts::FRAC_1_SQRT_2;
+    let axis = matches!((i / 12) % 10, 0 | 1 | 2 | 3);
+    let diag = (i / 12) % 10 == 4;
+    // spacings that put rows on lattice ordinates at the axis-parallel / diagonal angles
+    let pool: &[f32] = if axis { &[1.0, 0.5, 2.0, 0.25, 1.0, 0.5] } else if diag { &[r2, 0.5 * r2, 2.0 * r2, 0.5, 1.0] } else { &[0.25, 0.5, 1.0, 0.375, 1.0 / 3.0, 0.7, 2.5, 1.3] };
+    let mut offsets: Vec<f32> = if regular { vec![*rng.pick(pool)] } else { (0..2 + rng.below(5)).map(|_| *rng.pick(pool)).collect() };
+    if !regular {
+        match rng.below(12) {
+            // the first offset may be zero or negative: the sweep starts on / above the top of the outline
+            0 => offsets[0] = 0.0,
+            1 => offsets[0] = -*rng.pick(pool),
+            // a non-positive offset later on
+            2 => {
+                let k = 1 + rng.below(offsets.len() as u64 - 1) as usize;
+                offsets[k] = *rng.pick(&[0.0f32, -0.5, -3.0]);
+            }
+            _ => {}
+        }
+    }
+    let label = format!("{:?} angle={} tol={} uv={:?} tangents={} {}offsets={:?}", subs, angle, tol, uv, tangents, if regular { "regular " } else { "" }, offsets);
+    let dpool: &[f32] = if axis { &[1.0, 0.5] } else if diag { &[r2, 0.5] } else { &[0.5, 0.7, 1.0, 0.35] };
+    let dregular = (i / 2) % 3 != 0;
+    let ci = *rng.pick(dpool);
+    let dc = if dregular {
+        DCase { regular: true, row_offs: vec![*rng.pick(dpool)], col_offs: vec![ci], fco: 0.0, align: None }
+    } else {
+        let mode = rng.below(4);
+        DCase {
+            regular: false,
+            row_offs: (0..1 + rng.below(3)).map(|_| *rng.pick(dpool)).collect(),
+            col_offs: if mode == 0 {
+                vec![ci]
+            } else {
+                let mut v: Vec<f32> = (0..1 + rng.below(3)).map(|_| *rng.pick(&[0.5f32, 0.75, 1.0, 0.4])).collect();
+                if rng.chance(1, 8) {
+                    v.push(0.0);
+                }
+                v
+            },
+            fco: *rng.pick(&[0.0f32, 0.0, 0.25, 0.125]),
+            align: match mode {
+                0 => Some(ci),
+                1 => None,
+                _ => Some(*rng.pick(&[0.5f32, 1.0, 0.75])),
+            },
+        }
+    };
+    (ACase { label, subs, angle, tol, uv, tangents, regular, offsets }, dc)
+}
+
+
+const A_FINE: Mode = Mode { exact: false, dmul: 1.0 };
+/// K6 (C09): the flattening tolerance is a target, cubic flattening spends up to 1.2 of it (known finding)
+const A_FINE_K6: Mode = Mode { exact: false, dmul: 1.25 };
+const A_EXACT: Mode = Mode { exact: true, dmul: 0.0 };
+
+/// Runs the checks against the fine reference; for curved paths also against the polygon lyon_geom's flattening
+/// gives at the same tolerance (sharp: nothing but rounding is allowed there).  A mismatch with the fine
+/// reference that disappears at 1.25 tolerances while the hatches agree with lyon's own flattening is the
+/// known flattening finding K6 of C09, not a hatching defect.
+fn a_judge_hatch(st: &mut Stats, c: &ACase, rings: &[Vec<P2>], out: &HOut) {
+    let mut sk = Sink::default();
+    let ok = a_check_hatch(&mut sk, c, rings, out, A_FINE);
+    sk.flush_counters(st);
+    let curved = a_curved(&c.subs);
+    let mut exact_ok = true;
+    if curved {
+        let flat = a_lyon_flat(&c.subs, c.tol);
+        let mut sx = Sink::default();
+        exact_ok = a_check_hatch(&mut sx, c, &flat, out, A_EXACT);
+        st.inc("audit_curved_vs_own_flattening");
+        for (what, detail) in sx.errs.iter().take(1) {
+            a_fail(st, &format!("{} [against lyon_geom's flattening at the same tolerance]", what), &c.label, detail.clone());
+        }
+    }
+    if ok {
+        st.inc("audit_hatch_ok");
+    } else {
+        let mut k6 = false;
+        if curved && exact_ok {
+            let mut s2 = Sink::default();
+            k6 = a_check_hatch(&mut s2, c, rings, out, A_FINE_K6);
+        }
+        for (what, detail) in sk.errs.iter().take(1) {
+            if k6 {
+                st.fail(jobj(&[("what", jstr(&format!("{} [holds at 1.25 tolerances and against lyon's own flattening: C09's K6]", what))), ("input", jstr(&format!("{} :: {}", c.label, detail))), ("class", jstr("K6"))]));
+            } else if curved && exact_ok {
+                // the hatches are exactly those of lyon_geom's flattening at this tolerance, which is farther than
+                // 1.25 tolerances from the curve here (tips cut off near cusps / sharp apexes): C09's matter
+                st.inc("audit_flattening_farther_than_1_25_tolerances");
+                if st.samples.iter().filter(|x| x.starts_with("flattening farther")).count() < 4 {
+                    st.samples.push(format!("flattening farther than 1.25 tolerances from the curve: {} :: {} :: {}", what, c.label, detail));
+                }
+            } else {
+                a_fail(st, what, &c.label, detail.clone());
+            }
+        }
+    }
+}
+
+fn a_judge_dots(st: &mut Stats, c: &ACase, dc: &DCase, rings: &[Vec<P2>], ev: &[DEv], hit: bool) {
+    let label = format!("{} dots {:?}", c.label, dc);
+    let mut sk = Sink::default();
+    a_check_dots(&mut sk, c, dc, rings, ev, hit, A_FINE);
+    sk.flush_counters(st);
+    let curved = a_curved(&c.subs);
+    let mut exact_ok = true;
+    if curved {
+        let flat = a_lyon_flat(&c.subs, c.tol);
+        let mut sx = Sink::default();
+        a_check_dots(&mut sx, c, dc, &flat, ev, hit, A_EXACT);
+        exact_ok = sx.errs.is_empty();
+        for (what, detail) in sx.errs.iter().take(1) {
+            a_fail(st, &format!("{} [against lyon_geom's flattening at the same tolerance]", what), &label, detail.clone());
+        }
+    }
+    if sk.errs.is_empty() {
+        st.inc("audit_dots_ok");
+    } else {
+        let mut k6 = false;
+        if curved && exact_ok {
+            let mut s2 = Sink::default();
+            a_check_dots(&mut s2, c, dc, rings, ev, hit, A_FINE_K6);
+            k6 = s2.errs.is_empty();
+        }
+        for (what, detail) in sk.errs.iter().take(1) {
+            if k6 {
+                st.fail(jobj(&[("what", jstr(&format!("{} [holds at 1.25 tolerances and against lyon's own flattening: C09's K6]", what))), ("input", jstr(&format!("{} :: {}", label, detail))), ("class", jstr("K6"))]));
+            } else if curved && exact_ok {
+                st.inc("audit_flattening_farther_than_1_25_tolerances");
+            } else {
+                a_fail(st, what, &label, detail.clone());
+            }
+        }
+    }
+}
+
+
+/// Rows through vertices and along edges, constructed: lattice shapes at the axis-parallel angles with unit
+/// spacings (rows land on lattice ordinates), shapes whose sub-paths share parts of edges, T junctions.
+fn a_constructed() -> Vec<(ACase, DCase)> {
+    use std::f32::consts::{FRAC_PI_2, PI};
+    let shapes: Vec<(&str, Vec<Sub>)> = vec![
+        ("two overlapping rectangles sharing a part of an edge", vec![a_rect(-3.0, 0.0, 0.0, 1.0, false, true), a_rect(-2.0, -1.0, -1.0, 1.0, false, true)]),
+        ("rectangle in a rectangle on a shared edge", vec![a_rect(-4.0, -3.0, 8.0, 7.0, false, true), a_rect(-1.0, -3.0, 2.0, 1.0, true, true)]),
+        ("T", vec![a_poly(&[(0.0, 0.0), (6.0, 0.0), (6.0, 2.0), (4.0, 2.0), (4.0, 6.0), (2.0, 6.0), (2.0, 2.0), (0.0, 2.0)], true)]),
+        ("comb", vec![a_poly(&[(0.0, 0.0), (7.0, 0.0), (7.0, 4.0), (6.0, 4.0), (6.0, 1.0), (5.0, 1.0), (5.0, 4.0), (4.0, 4.0), (4.0, 1.0), (3.0, 1.0), (3.0, 3.0), (2.0, 3.0), (2.0, 1.0), (1.0, 1.0), (1.0, 4.0), (0.0, 4.0)], false)]),
+        ("diamond and triangle: vertices on rows", vec![a_poly(&[(0.0, -3.0), (3.0, 0.0), (0.0, 3.0), (-3.0, 0.0)], true), a_poly(&[(1.0, 0.0), (5.0, 0.0), (3.0, 2.0)], true)]),
+        ("bow tie and square with a common vertex", vec![a_poly(&[(0.0, 0.0), (4.0, 4.0), (4.0, 0.0), (0.0, 4.0)], true), a_rect(2.0, 2.0, 5.0, 5.0, false, true)]),
+        ("the same square twice, and once more reversed", vec![a_rect(0.0, 0.0, 4.0, 4.0, false, true), a_rect(0.0, 0.0, 4.0, 4.0, false, true), a_rect(0.0, 0.0, 4.0, 4.0, true, true)]),
+    ];
+    let mut v = Vec::new();
+    for (name, subs) in &shapes {
+        for (ai, angle) in [0.0f32, FRAC_PI_2, PI, -FRAC_PI_2].iter().enumerate() {
+            for (oi, offsets) in [vec![1.0f32], vec![0.5], vec![0.0, 1.0, 1.0, 0.5, 0.5], vec![2.0, 0.25]].iter().enumerate() {
+                let regular = offsets.len() == 1;
+                let uv = if oi % 2 == 0 { (0.0, 0.0) } else { (1.0, -2.0) };
+                let label = format!("constructed: {} {:?} angle={} uv={:?} {}offsets={:?}", name, subs, angle, uv, if regular { "regular " } else { "" }, offsets);
+                let c = ACase { label, subs: subs.clone(), angle: *angle, tol: 0.1, uv, tangents: (ai + oi) % 2 == 0, regular, offsets: offsets.clone() };
+                let iv = if oi == 1 { 0.5 } else { 1.0 };
+                let dc = if oi < 2 {
+                    DCase { regular: true, row_offs: vec![iv], col_offs: vec![iv], fco: 0.0, align: None }
+                } else {
+                    DCase { regular: false, row_offs: offsets[1..].to_vec(), col_offs: vec![0.5], fco: if oi == 2 { 0.0 } else { 0.25 }, align: Some(0.5) }
+                };
+                v.push((c, dc));
+            }
+        }
+    }
+    v
+}
+
+/// The sign convention, on one fixed input: a 10 x 10 square hatched at +30 degrees.
+fn a_convention_probe(st: &mut Stats) {
+    let c = ACase { label: "square 10x10 at +pi/6".into(), subs: vec![a_rect(0.0, 0.0, 10.0, 10.0, false, true)], angle: std::f32::consts::FRAC_PI_6, tol: 0.1, uv: (0.0, 0.0), tangents: true, regular: true, offsets: vec![1.0] };
+    let path = a_build(&c.subs);
+    match catch(AssertUnwindSafe(|| a_hatch(&mut Hatcher::new(), &path, &c))) {
+        None => a_fail(st, "audit: hatch_path panicked", &c.label, String::new()),
+        Some(out) => {
+            let (sn, cs) = (c.angle as f64).sin_cos();
+            let mut minus = 0;
+            let mut plus = 0;
+            let mut adv_ok = true;
+            let mut prev: Option<SegRec> = None;
+            for s in &out.segs {
+                let (dx, dy) = ((s.bp.x - s.ap.x) as f64, (s.bp.y - s.ap.y) as f64);
+                let l = (dx * dx + dy * dy).sqrt();
+                if l < 0.5 {
+                    continue;
+                }
+                if (dx / l - cs).abs() < 1e-3 && (dy / l + sn).abs() < 1e-3 {
+                    minus += 1;
+                } else if (dx / l - cs).abs() < 1e-3 && (dy / l - sn).abs() < 1e-3 {
+                    plus += 1;
+                }
+                if let Some(p) = prev {
+                    if s.row == p.row + 1 {
+                        // successive rows advance by the offset along (sin a, cos a)
+                        let adv = (s.ap.x - p.ap.x) as f64 * sn + (s.ap.y - p.ap.y) as f64 * cs;
+                        if (adv - 1.0).abs() > 1e-3 {
+                            adv_ok = false;
+                        }
+                    }
+                }
+                prev = Some(*s);
+            }
+            st.add("audit_convention_rows_along_minus_angle", minus);
+            st.add("audit_convention_rows_along_plus_angle", plus);
+            if !(minus > 5 && plus == 0 && adv_ok) {
+                a_fail(st, "audit: rows do not run along (cos a, -sin a) and advance along (sin a, cos a)", &c.label, format!("minus {} plus {} advance ok {}", minus, plus, adv_ok));
+            }
+        }
+    }
+}
+
+fn audit(args: &Args, st: &mut Stats) {
+    let mut rng = Rng::new(args.seed ^ 0x2020_a0d1);
+    let n = if args.thorough() { 3000 } else { 300 };
+    a_convention_probe(st);
+    // one hatcher is reused for every input of the audit (hatches and dots, all angles / options)
+    let mut warm = Hatcher::new();
+    let constructed = a_constructed();
+    let nc = constructed.len();
+    for i in 0..n + nc {
+        let (c, dc) = if i < nc { constructed[i].clone() } else { a_gen(&mut rng, i - nc) };
+        st.inc("evaluations");
+        st.inc("audit_paths");
+        if i < nc {
+            st.inc("audit_constructed");
+        } else {
+            st.inc(&format!("audit_family_{:02}", (i - nc) % 12));
+        }
+        let path = a_build(&c.subs);
+        let rings = a_fine(&c.subs);
+        let r = catch(AssertUnwindSafe(|| {
+            let f = a_hatch(&mut Hatcher::new(), &path, &c);
+            let w = a_hatch(&mut warm, &path, &c);
+            (f, w)
+        }));
+        match r {
+            None => {
+                a_fail(st, "audit: hatch_path panicked", &c.label, String::new());
+                warm = Hatcher::new();
+            }
+            Some((f, w)) => {
+                st.note_case(&c.label, !f.segs.is_empty());
+                if f.segs.len() != w.segs.len() || f.segs.iter().zip(w.segs.iter()).any(|(a, b)| a.bits() != b.bits()) || f.calls.len() != w.calls.len() {
+                    a_fail(st, "audit: a reused Hatcher gives different hatches than a fresh one", &c.label, format!("{} vs {} segments", f.segs.len(), w.segs.len()));
+                }
+                a_judge_hatch(st, &c, &rings, &f);
+            }
+        }
+        if i < nc || (i / 12 + i) % 2 == 0 || i % 12 == 5 {
+            st.inc("audit_dot_paths");
+            let r = catch(AssertUnwindSafe(|| {
+                let f = a_dots(&mut Hatcher::new(), &path, &c, &dc);
+                let w = a_dots(&mut warm, &path, &c, &dc);
+                (f, w)
+            }));
+            match r {
+                None => {
+                    a_fail(st, "audit: dot_path panicked", &c.label, format!("{:?}", dc));
+                    warm = Hatcher::new();
+                }
+                Some(((ev, hit), (ev2, _))) => {
+                    if ev.len() != ev2.len() || ev.iter().zip(ev2.iter()).any(|(a, b)| a.bits() != b.bits()) {
+                        a_fail(st, "audit: a reused Hatcher places different dots than a fresh one", &c.label, format!("{:?}", dc));
+                    }
+                    a_judge_dots(st, &c, &dc, &rings, &ev, hit);
+                }
+            }
+        }
+    }
+    a_degenerate(st, &mut warm);
+}
+
+/// empty / single-point / zero-area inputs, and offsets a pattern should not return: no panic, no endless sweep
+fn a_degenerate(st: &mut Stats, warm: &mut Hatcher) {
+    use std::f32::consts::FRAC_PI_4;
+    let inputs: Vec<(&str, Vec<Sub>)> = vec![
+        ("empty", vec![]),
+        ("single point", vec![a_poly(&[(1.0, 2.0)], true)]),
+        ("single point, open", vec![a_poly(&[(1.0, 2.0)], false)]),
+        ("repeated point", vec![a_poly(&[(1.0, 2.0), (1.0, 2.0), (1.0, 2.0)], true)]),
+        ("two points", vec![a_poly(&[(0.0, 0.0), (5.0, 3.0)], true)]),
+        ("two points, open", vec![a_poly(&[(0.0, 0.0), (5.0, 3.0)], false)]),
+        ("collinear", vec![a_poly(&[(0.0, 0.0), (2.0, 1.0), (6.0, 3.0), (4.0, 2.0)], true)]),
+        ("there and back", vec![a_poly(&[(0.0, 0.0), (4.0, 0.0), (4.0, 4.0), (4.0, 0.0)], true)]),
+        ("degenerate quadratic", vec![Sub { s: (0.0, 0.0), g: vec![Sg::Q((3.0, 3.0), (6.0, 6.0))], close: true }]),
+        ("degenerate cubic", vec![Sub { s: (0.0, 0.0), g: vec![Sg::C((4.0, 2.0), (2.0, 1.0), (6.0, 3.0))], close: false }]),
+        ("point curve", vec![Sub { s: (1.0, 1.0), g: vec![Sg::C((1.0, 1.0), (1.0, 1.0), (1.0, 1.0)), Sg::Q((1.0, 1.0), (1.0, 1.0))], close: true }]),
+    ];
+    for (name, subs) in &inputs {
+        for angle in [0.0f32, FRAC_PI_4, 1.0, -2.0, std::f32::consts::FRAC_PI_2] {
+            for regular in [true, false] {
+                st.inc("evaluations");
+                st.inc("audit_degenerate_inputs");
+                let c = ACase { label: format!("{} {:?} angle={} regular={}", name, subs, angle, regular), subs: subs.clone(), angle, tol: 0.05, uv: (0.5, -1.0), tangents: regular, regular, offsets: vec![0.5] };
+                let dc = DCase { regular, row_offs: vec![0.5], col_offs: vec![0.5], fco: 0.0, align: Some(0.5) };
+                let path = if subs.is_empty() { Path::new() } else { a_build(subs) };
+                let rings = a_fine(subs);
+                let r = catch(AssertUnwindSafe(|| (a_hatch(&mut Hatcher::new(), &path, &c), a_hatch(warm, &path, &c), a_dots(&mut Hatcher::new(), &path, &c, &dc), a_dots(warm, &path, &c, &dc))));
+                match r {
+                    None => {
+                        a_fail(st, "audit: degenerate path: panic", &c.label, String::new());
+                        *warm = Hatcher::new();
+                    }
+                    Some((f, w, (ev, hit), (ev2, _))) => {
+                        // zero area: nothing of positive length, no dot away from the outline (the general checks),
+                        // and the strict reading for paths without any edge: no output at all
+                        let long = f.segs.iter().filter(|s| (s.bp - s.ap).length() > 1e-3).count();
+                        if long > 0 || f.limit_hit || hit {
+                            a_fail(st, "audit: zero-area path produced hatches of positive length", &c.label, format!("{} segments", long));
+                        }
+                        if f.segs.len() != w.segs.len() || ev.len() != ev2.len() {
+                            a_fail(st, "audit: a reused Hatcher differs from a fresh one on a degenerate path", &c.label, String::new());
+                        }
+                        st.add("audit_degenerate_zero_length_segments", f.segs.len() as u64);
+                        a_judge_hatch(st, &c, &rings, &f);
+                        a_judge_dots(st, &c, &dc, &rings, &ev, hit);
+                    }
+                }
+            }
+        }
+    }
+    // offsets: NaN / infinite / zero / negative constant intervals must not hang or panic; tiny positive offsets that
+    // f32 absorbs (y + o == y) are an endless sweep by construction of the pattern: counted, not flagged
+    let sq = vec![a_rect(0.0, 0.0, 8.0, 8.0, false, true)];
+    let path = a_build(&sq);
+    for (name, offs) in [
+        ("nan", vec![f32::NAN]),
+        ("nan later", vec![1.0, f32::NAN, 1.0]),
+        ("inf", vec![f32::INFINITY]),
+        ("-inf", vec![f32::NEG_INFINITY]),
+        ("zero", vec![0.0]),
+        ("negative", vec![-1.0]),
+        ("negative then positive", vec![-3.0, 1.0, 1.0, 1.0]),
+        ("tiny", vec![1.0, 1e-9]),
+        ("one tiny", vec![1.0, 1e-9, 1.0, 1.0, 1.0, 1.0, 1.0, 1.0, 1.0, 1.0, 1.0, 1.0]),
+    ] {
+        st.inc("evaluations");
+        st.inc("audit_offset_probes");
+        let c = ACase { label: format!("square 8x8, offsets {} {:?}", name, offs), subs: sq.clone(), angle: 0.3, tol: 0.1, uv: (0.0, 0.0), tangents: true, regular: false, offsets: offs.clone() };
+        let dc = DCase { regular: false, row_offs: offs.clone(), col_offs: offs.clone(), fco: 0.0, align: None };
+        match catch(AssertUnwindSafe(|| (a_hatch(&mut Hatcher::new(), &path, &c), a_dots(&mut Hatcher::new(), &path, &c, &dc)))) {
+            None => a_fail(st, "audit: offsets probe: panic", &c.label, String::new()),
+            Some((f, (_ev, hit))) => {
+                if f.limit_hit || hit {
+                    st.inc("audit_offset_probes_endless");
+                    if name != "tiny" {
+                        a_fail(st, "audit: the sweep does not end (row limit of the harness hit)", &c.label, format!("{} segments", f.segs.len()));
+                    }
+                }
+            }
+        }
+    }
+    // a shape far from the origin: the spacing is below the resolution of f32 there (ulp(2e7) = 2), y + 0.5 == y
+    // and the sweep never advances although the pattern returns a constant positive offset (200 rows expected)
+    for (x0, off) in [(2.0e7f32, 0.5f32), (1.0e6, 0.01), (1.0e5, 0.003), (1.0e5, 0.01)] {
+        st.inc("evaluations");
+        st.inc("audit_far_probes");
+        let subs = vec![a_rect(x0, x0, x0 + 100.0, x0 + 100.0, false, true)];
+        let path = a_build(&subs);
+        let c = ACase { label: format!("square 100x100 at ({}, {}), constant offset {}", x0, x0, off), subs, angle: 0.0, tol: 0.1, uv: (0.0, 0.0), tangents: false, regular: false, offsets: vec![off] };
+        match catch(AssertUnwindSafe(|| a_hatch(&mut Hatcher::new(), &path, &c))) {
+            None => a_fail(st, "audit: far shape: panic", &c.label, String::new()),
+            Some(f) => {
+                let expected = (100.0 / off as f64) as usize;
+                if f.limit_hit && expected < A_ROW_LIMIT {
+                    a_fail(st, "audit: the sweep does not end: y + offset == y in f32 (row limit of the harness hit)", &c.label, format!("{} rows asked, about {} expected", f.calls.len(), expected));
+                } else if f.limit_hit {
+                    st.inc("audit_far_probes_endless_or_long");
+                }
+            }
+        }
+    }
+    // regular patterns with a zero / negative interval
+    for iv in [0.0f32, -1.0] {
+        use lyon_algorithms::hatching::{RegularDotPattern, RegularHatchingPattern};
+        st.inc("audit_offset_probes");
+        let r = catch(AssertUnwindSafe(|| {
+            let mut n = 0usize;
+            Hatcher::new().hatch_path(path.iter(), &HatchingOptions::DEFAULT, &mut RegularHatchingPattern { interval: iv, callback: &mut |_s: &HatchSegment| n += 1 });
+            let mut m = 0usize;
+            Hatcher::new().dot_path(path.iter(), &DotOptions::DEFAULT, &mut RegularDotPattern { row_interval: 1.0, column_interval: iv, callback: &mut |_d: &Dot| m += 1 });
+            (n, m)
+        }));
+        match r {
+            None => a_fail(st, "audit: regular pattern with a non-positive interval: panic", &format!("interval {}", iv), String::new()),
+            Some((n, m)) => {
+                st.add("audit_nonpositive_interval_segments", n as u64);
+                st.add("audit_nonpositive_interval_dots", m as u64);
+            }
+        }
+    }
 }
